@@ -455,7 +455,13 @@ class Interp(EvalMixin):
     def s_FunctionDef(self, node, st):
         for d in node.decorator_list:
             dn = ast.unparse(d).split("(")[0].split(".")[-1]
-            if dn not in PASS_DECORATORS:
+            if dn not in PASS_DECORATORS and isinstance(d, ast.Name) and st.stack:
+                from .interp_cfg import PASS_DECORATOR_FACTORIES
+                for a_ in ast.walk(st.stack[-1].node):
+                    if isinstance(a_, ast.Assign) and len(a_.targets) == 1 and isinstance(a_.targets[0], ast.Name) and a_.targets[0].id == d.id and isinstance(a_.value, ast.Call) \
+                            and ast.unparse(a_.value.func).split(".")[-1] in PASS_DECORATOR_FACTORIES:
+                        dn = None
+            if dn is not None and dn not in PASS_DECORATORS:
                 raise AnalysisError(f"decorator {dn} on local function {node.name} not in the reviewed pass-through list at {self.site(st, node)}")
         fi = st.stack[-1] if st.stack else None
         sub = FuncInfo(node.name, f"{fi.qualname}.{node.name}" if fi else node.name, st.frames[st.cur]["__mod__"], node, fi.cls if fi else None, fi)
